@@ -121,7 +121,11 @@ class ContractMixin:
 
     def apply_contract(self, c, args, kw, st: State, node):
         names = list(c.params)
-        env = self.bind_params(names, self.contract_defaults(c, st), args, kw, node, c.qualname)
+        dflt = self.contract_defaults(c, st)
+        for n_, k_ in c.params.items():
+            if k_ == "any" and n_ not in dflt:
+                dflt[n_] = V(NONE, None)
+        env = self.bind_params(names, dflt, args, kw, node, c.qualname)
         env.pop("__extra_kwargs__", None)
         inst = self.instantiate(c, env)
         for n in names:
@@ -144,10 +148,12 @@ class ContractMixin:
             if not ghost:
                 if addr is None:
                     self.check_frame_wildcard(st, region, node)
+                elif callable(addr):
+                    self.check_frame_class(st, region, addr, node)
                 else:
                     self.check_frame(st, region, addr, node)
             self.havoc_region(st, region, addr)
-            if region == "dict" and addr is not None:
+            if region == "dict" and addr is not None and not callable(addr):
                 # a havoced dict still satisfies its representation invariant
                 dv = self.spec_eval(entry[:-2] if entry.endswith("[]") else entry, env, pre)
                 if dv.kind.target.k is not None:
@@ -243,6 +249,23 @@ class ContractMixin:
         """modifies entry -> (region, address term).  Forms: 'x' (list or dict x), 'x.f' (field f of object x),
         'x.*' (all fields of x), 'e.f' with e any spec expression."""
         entry = entry.strip()
+        if entry.startswith("class:"):
+            # every field of every object whose dynamic class is (a subclass of) the named class
+            cname = entry[6:]
+            ids = [self.class_id(s_) for s_ in self.reg.classes if self.reg.is_subclass(s_, cname)] or [self.class_id(cname)]
+            for s_ in self.reg.classes:
+                if self.reg.is_subclass(s_, cname):
+                    for f, ks in self.reg.classes[s_].fields.items():
+                        fk = parse_kind(ks, self.reg.opaque)
+                        if fk not in (FN, NONE):
+                            self.H.fld_arr(st, f, fk.sort())
+
+            def pred(a, st2, ids=ids):
+                tag = self.sel(st2, self.cls_arr(st2), a)
+                return z3.Or([tag == i for i in ids])
+
+            pred.class_name = cname
+            return "field:*", pred
         if entry.startswith("all:"):
             # wildcard: 'all:dict' (contents of every dict) or 'all:field:<name>' (that field of every object)
             reg_ = entry[4:]
